@@ -1,6 +1,6 @@
 // argvchild: the child program of the C16 checks (no dependencies).
 // Appends one JSON line {"argv": os.Args} to the file named by VERIF_ARGV_OUT (one O_APPEND write),
-// then, if VERIF_ARGV_GATE names a file, waits until that file exists (at most 10 s),
+// then, if VERIF_ARGV_GATE names a file, waits until that file exists (at most 60 s),
 // then, if VERIF_ARGV_PRINT=1, prints its arguments joined by one space and a newline.
 package main
 
@@ -31,7 +31,7 @@ func main() {
 		f.Close()
 	}
 	if g := os.Getenv("VERIF_ARGV_GATE"); g != "" {
-		deadline := time.Now().Add(10 * time.Second)
+		deadline := time.Now().Add(60 * time.Second)
 		for time.Now().Before(deadline) {
 			if _, err := os.Stat(g); err == nil {
 				break
